@@ -335,3 +335,28 @@ Theorem C06_glue_rs_matches_model :
   (forall w a, Glue.I_not w a = bitnot w a).
 Proof. exact glue_bits_matches_model. Qed.
 Print Assumptions C06_glue_rs_matches_model.
+(* ---- second batch: the array read / write functions of /repo/src/buint/mod.rs without loops (from_digit, digits,
+   from_digits, bit, set_bit, power_of_two), bits() and src/buint/checked.rs checked_next_power_of_two, regenerated on every run like the loop functions, compute exactly the model's
+   functions; where the model returns `outcome` (the Rust index panic), Panicked corresponds to Panic.  The digit width is
+   a power of two (`index >> BIT_SHIFT`, `index & BITS_MINUS_1`); from_digit indexes digit 0: N > 0.
+   (`set_bit(&mut self, ..)`: the generated function returns the updated *self.) ---- *)
+From Bnum.Model Require Convert.
+From Bnum.Proofs Require Import LoopsTieC06b.
+Theorem C06_loops2_rs_match_model w lg : 0 <= lg -> w = 2 ^ lg ->
+  (forall n d fuel, (0 < n)%nat -> Loops.from_digit w (Z.of_nat n) fuel d = Done (from_digit n d)) /\
+  (forall n a fuel, Loops.digits w n fuel a = Done (Convert.digits a)) /\
+  (forall n a fuel, Loops.from_digits w n fuel a = Done (Convert.from_digits a)) /\
+  (forall n a index fuel, wf w n a -> 0 <= index ->
+     Loops.bit w (Z.of_nat n) fuel a index = match Bits.bit w a index with Ret b => Done b | Panic => Panicked end) /\
+  (forall n a index value fuel, wf w n a -> 0 <= index ->
+     Loops.set_bit w (Z.of_nat n) fuel a index value =
+     match Bits.set_bit w a index value with Ret r => Done r | Panic => Panicked end) /\
+  (forall n power fuel, 0 <= power ->
+     Loops.power_of_two w (Z.of_nat n) fuel power =
+     match Bits.power_of_two w n power with Ret r => Done r | Panic => Panicked end) /\
+  (forall n a fuel, wf w n a -> (n <= fuel)%nat -> Loops.bits w (Z.of_nat n) fuel a = Done (Bits.bits_of w a)) /\
+  (forall n a fuel, wf w n a -> (n <= fuel)%nat ->
+     Loops.checked_next_power_of_two w (Z.of_nat n) fuel a =
+     match Bits.U_checked_next_power_of_two w a with Ret o => Done o | Panic => Panicked end).
+Proof. exact (loops_C06b_match_model w lg). Qed.
+Print Assumptions C06_loops2_rs_match_model.
